@@ -1,4 +1,5 @@
 #!/bin/sh
 # tools/seed_all.sh [parallelism] : tools/seed_one.sh for every directory under seeded/
-cd /verif
+V=$(cd "$(dirname "$0")/.." && pwd)
+cd $V
 ls seeded | xargs -P ${1:-3} -I{} tools/seed_one.sh {}
